@@ -19,8 +19,9 @@ VARIABLES l, n, script, faulty, fair,
           avail,    \* complete call frames made available so far
           handled,  \* calls that reached the service
           outn,     \* owed replies written so far
-          wait, wtot, wtr   \* fairness counters (C18), see FairUpdate
-tvars == <<l, n, script, faulty, fair, wonly, status, avail, handled, outn, wait, wtot, wtr>>
+          wait, wtot, wtr,  \* fairness counters (C18), see FairUpdate
+          sw        \* stream items written while the connection has had a complete call waiting (C10)
+tvars == <<l, n, script, faulty, fair, wonly, status, avail, handled, outn, wait, wtot, wtr, sw>>
 
 Conns == 0..(n - 1)
 IsEv(e) == l <= Len(Rec) /\ Rec[l].ev = e /\ l' = l + 1
@@ -65,7 +66,7 @@ NoFair == UNCHANGED <<wait, wtot, wtr>>
 \* ---- actions -----------------------------------------------------------------------------
 TInit == /\ l = 1 /\ n = 0 /\ script = <<>> /\ faulty = <<>> /\ fair = FALSE /\ wonly = <<>>
          /\ status = <<>> /\ avail = <<>> /\ handled = <<>> /\ outn = <<>>
-         /\ wait = <<>> /\ wtot = <<>> /\ wtr = <<>>
+         /\ wait = <<>> /\ wtot = <<>> /\ wtr = <<>> /\ sw = <<>>
 
 TReset == /\ IsEv("reset")
           /\ LET m == Rec[l].n IN
@@ -78,16 +79,17 @@ TReset == /\ IsEv("reset")
              /\ outn' = [c \in 0..(m - 1) |-> 0]
              /\ wait' = [x \in 0..(m - 1) |-> [d \in 0..(m - 1) |-> 0]]
              /\ wtot' = [x \in 0..(m - 1) |-> 0] /\ wtr' = [x \in 0..(m - 1) |-> 0]
+             /\ sw' = [x \in 0..(m - 1) |-> 0]
 
 TConnect == /\ IsEv("connect") /\ LET c == Rec[l].c IN
                status[c] = "new" /\ status' = [status EXCEPT ![c] = "queued"]
-            /\ NoFair /\ UNCHANGED <<n, script, faulty, fair, wonly, avail, handled, outn>>
+            /\ NoFair /\ UNCHANGED <<n, script, faulty, fair, wonly, avail, handled, outn, sw>>
 TAccept == /\ IsEv("accept") /\ LET c == Rec[l].c IN
               /\ status[c] = "queued" /\ status' = [status EXCEPT ![c] = "open"]
            /\ FairUpdate(FALSE, 0, TRUE) /\ FairOK
-           /\ UNCHANGED <<n, script, faulty, fair, wonly, avail, handled, outn>>
+           /\ UNCHANGED <<n, script, faulty, fair, wonly, avail, handled, outn, sw>>
 TInject == /\ IsEv("inject") /\ avail' = [avail EXCEPT ![Rec[l].c] = Rec[l].avail]
-           /\ NoFair /\ UNCHANGED <<n, script, faulty, fair, wonly, status, handled, outn>>
+           /\ NoFair /\ UNCHANGED <<n, script, faulty, fair, wonly, status, handled, outn, sw>>
 
 \* A call reaches the service: the next one of its connection, fully received, after everything
 \* owed to the earlier calls of that connection was written - exactly once, in order (C08).
@@ -101,11 +103,13 @@ THandle == /\ IsEv("handle")
               /\ handled' = [handled EXCEPT ![c] = i]
               /\ status' = [status EXCEPT ![c] = IF @ = "torn" THEN @ ELSE IF script[c][i].k = "stream" THEN "streaming" ELSE "open"]
               /\ FairUpdate(TRUE, c, script[c][i].k = "stream") /\ FairOK
+              /\ sw' = [sw EXCEPT ![c] = 0]
            /\ UNCHANGED <<n, script, faulty, fair, wonly, avail, outn>>
 
 \* Something is written on connection w: only what w itself is owed next, in order, after the
 \* call it answers reached the service (C08: own connection, exactly once; C10: items in order
 \* with the service's continues flags).
+NumItems(fs) == Cardinality({x \in 1..Len(fs) : fs[x].t = "item"})
 WithC(o, w) == [t |-> o.t, c |-> w, i |-> o.i, j |-> o.j, cont |-> o.cont]
 RECURSIVE FramesMatch(_, _, _)
 FramesMatch(w, fs, k) ==
@@ -121,6 +125,11 @@ TWrote == /\ IsEv("wrote")
              /\ status[w] \in {"open", "streaming"}
              /\ FramesMatch(w, fs, outn[w])
              /\ outn' = [outn EXCEPT ![w] = @ + Len(fs)]
+             \* While a stream is open other clients are still served (C10): a connection whose complete call
+             \* is waiting is not passed over for more stream items than there are connections (the code
+             \* gives calls priority over stream items altogether; judged where readiness is exact: `fair').
+             /\ sw' = [x \in Conns |-> IF x # w /\ Ready(x) THEN sw[x] + NumItems(fs) ELSE sw[x]]
+             /\ (fair => \A x \in Conns : sw'[x] <= n)
           /\ NoFair /\ UNCHANGED <<n, script, faulty, fair, wonly, status, avail, handled>>
 
 \* A transport write failed after it had handed over some of its bytes (only on connections designated
@@ -135,7 +144,7 @@ TWrotePartial ==
              /\ FramesMatch(w, fs, outn[w])
              /\ outn' = [outn EXCEPT ![w] = @ + Len(fs)]
              /\ status' = [status EXCEPT ![w] = IF Rec[l].tail > 0 THEN "torn" ELSE @]
-          /\ NoFair /\ UNCHANGED <<n, script, faulty, fair, wonly, avail, handled>>
+          /\ NoFair /\ UNCHANGED <<n, script, faulty, fair, wonly, avail, handled, sw>>
 
 \* The service's stream ended: the connection takes calls again (C10).
 TStreamEnd == /\ IsEv("stream_end")
@@ -144,18 +153,18 @@ TStreamEnd == /\ IsEv("stream_end")
                  /\ (status[c] = "streaming" /\ ~faulty[c] => outn[c] = OwedBefore(c, Rec[l].i + 1))
                  /\ status' = [status EXCEPT ![c] = IF @ = "streaming" THEN "open" ELSE @]
               /\ FairUpdate(FALSE, 0, TRUE) /\ FairOK
-              /\ UNCHANGED <<n, script, faulty, fair, wonly, avail, handled, outn>>
+              /\ UNCHANGED <<n, script, faulty, fair, wonly, avail, handled, outn, sw>>
 TNoop == (IsEv("stream_item") \/ IsEv("tick")) /\ NoFair
-         /\ UNCHANGED <<n, script, faulty, fair, wonly, status, avail, handled, outn>>
+         /\ UNCHANGED <<n, script, faulty, fair, wonly, status, avail, handled, outn, sw>>
 
 \* Faults are injected only on connections the scenario designates as faulty (C09) ...
 TFault == (IsEv("fault") \/ IsEv("write_err")) /\ faulty[Rec[l].c] /\ NoFair
-          /\ UNCHANGED <<n, script, faulty, fair, wonly, status, avail, handled, outn>>
+          /\ UNCHANGED <<n, script, faulty, fair, wonly, status, avail, handled, outn, sw>>
 \* ... and only such a connection is ever closed by the server.
 TDropped == /\ IsEv("dropped") /\ faulty[Rec[l].c]
             /\ status' = [status EXCEPT ![Rec[l].c] = "gone"]
             /\ FairUpdate(FALSE, 0, TRUE) /\ FairOK
-            /\ UNCHANGED <<n, script, faulty, fair, wonly, avail, handled, outn>>
+            /\ UNCHANGED <<n, script, faulty, fair, wonly, avail, handled, outn, sw>>
 
 \* Nothing moves any more: every healthy connection got everything it is owed, the server runs.
 TQuiesce == /\ IsEv("quiesce") /\ ~Rec[l].exited
@@ -163,7 +172,7 @@ TQuiesce == /\ IsEv("quiesce") /\ ~Rec[l].exited
                   /\ status[c] = "open"
                   /\ handled[c] = ServedCalls(script[c], 1)
                   /\ outn[c] = Len(Owed(c))
-            /\ NoFair /\ UNCHANGED <<n, script, faulty, fair, wonly, status, avail, handled, outn>>
+            /\ NoFair /\ UNCHANGED <<n, script, faulty, fair, wonly, status, avail, handled, outn, sw>>
 \* (an `exit' event - the server future returned or panicked - is never explained)
 
 TNext == TReset \/ TConnect \/ TAccept \/ TInject \/ THandle \/ TWrote \/ TWrotePartial \/ TStreamEnd \/ TNoop
